@@ -13,7 +13,8 @@ From Qryn Require Import model.TqSql model.Traceql model.TraceqlPlan model.Trace
      proofs.TraceqlWfProofs model.TraceqlPortions proofs.TraceqlPortionsProofs
      model.TraceqlCase proofs.TraceqlIndexSearchProofs proofs.TraceqlIndexCorrectProofs proofs.TraceqlGroupedProofs
      proofs.TraceqlTopkProofs proofs.TraceqlCorrectProofs proofs.TraceqlAggProofs proofs.TraceqlExamples
-     proofs.TraceqlChainSem proofs.TraceqlChainSql proofs.TraceqlChainComb proofs.TraceqlChainProofs proofs.TraceqlChainPlan.
+     proofs.TraceqlChainSem proofs.TraceqlChainSql proofs.TraceqlChainComb proofs.TraceqlChainProofs proofs.TraceqlChainPlan
+     model.TraceqlKey proofs.TraceqlKeyProofs proofs.TraceqlKeyCorrect.
 Import ListNotations.
 Open Scope string_scope.
 
@@ -391,3 +392,98 @@ Theorem traceql_correct_chain : forall re_match parse_float hash64 (c : ctx) (d 
               /\ result_ok c (traceql_sem re_match parse_float false c d q) res = true.
 Proof. exact TraceqlChainPlan.traceql_correct_chain. Qed.
 Print Assumptions traceql_correct_chain.
+
+(* ---------------------------------------------------------------- round 6: the de-duplication key
+   analyzeCond identifies the terms of a selector by the TEXT AttrSelector.String() prints (label, blank, operator, blank, the
+   token of the value as captured).  keys_ok -- "terms that print alike are the same term" -- was a guard of theorems 2, 5, 9, 12,
+   13, 19, 20; it is now a consequence of what the grammar guarantees about the captured tokens (TraceqlKey.term_grammar: a label
+   without blanks; exactly one of a quoted token / a number of the bytes -.0-9 / a duration that starts with a digit and ends with a
+   letter) and of the library values being functions of the tokens (lib_functional).  Both, and the equality of this printer with
+   the text the REAL String() returned, are computed on every harness case (codes 6, 7), on literals of up to 520 bytes that share
+   prefixes of 30..520 bytes (the seeded change C11-f cut the printed literal at 48 bytes). *)
+
+(* 21. AttrSelector.String() is injective on grammar terms: equal keys force the same label, operator and value tokens. *)
+Theorem attr_selector_key_injective : forall a b : attr_sel,
+  term_grammar a = true -> term_grammar b = true ->
+  attr_sel_string a = attr_sel_string b ->
+  a_label a = a_label b /\ a_op a = a_op b /\ tokens_eqb (a_val a) (a_val b) = true.
+Proof. exact key_injective. Qed.
+Print Assumptions attr_selector_key_injective.
+
+(* 22. keys_ok follows. *)
+Theorem keys_ok_from_grammar : forall e : attr_exp, terms_grammar e = true -> keys_ok e = true.
+Proof. exact keys_ok_of_grammar. Qed.
+Print Assumptions keys_ok_from_grammar.
+
+(* 22b. ... and lib_functional holds whenever the three library fields were filled by functions of the tokens, whatever the functions
+   (the harness fills them with QuotedString.Unquote, strconv.ParseFloat + FloatVal.String, time.ParseDuration). *)
+Theorem library_values_are_functional : forall (unqF ffmtF : string -> option string) (durF : string -> option Z) (ts : list attr_sel),
+  (forall t, List.In t ts -> lib_from unqF ffmtF durF (a_val t)) -> lib_functional ts = true.
+Proof. exact lib_functional_from. Qed.
+Print Assumptions library_values_are_functional.
+
+(* 2g. Theorem 2 without the guard keys_ok. *)
+Theorem analyze_keeps_meaning_grammar : forall re_match parse_float lit_round (e : attr_exp),
+  terms_grammar e = true ->
+  let '(c, st) := analyze_cond e ([], []) in
+  forall rows, cond_sem re_match parse_float lit_round (fst st) rows c = exp_sem re_match parse_float lit_round e rows.
+Proof. exact analyze_sem_grammar. Qed.
+Print Assumptions analyze_keeps_meaning_grammar.
+
+(* 2r. The guard is needed of the PRINTER: analyzeCond run with a key that prints only the first 8 bytes of the literal (the shape of
+   C11-f) merges  .u = "/ordersA"  and  .u = "/ordersB" : the expression holds of a span that has only B, the analysed condition
+   does not; with the faithful key it does. *)
+Theorem analyze_refuted_with_cut_key :
+  exists (e : attr_exp) (rows : list irow),
+    terms_grammar e = true /\
+    analyze_cond_k attr_sel_string e ([], []) = analyze_cond e ([], []) /\
+    exp_sem (fun _ _ => false) (fun _ => None) false e rows = true /\
+    (let '(c, st) := analyze_cond e ([], []) in cond_sem (fun _ _ => false) (fun _ => None) false (fst st) rows c) = true /\
+    (let '(c, st) := analyze_cond_k (key_cut 8) e ([], []) in cond_sem (fun _ _ => false) (fun _ => None) false (fst st) rows c) = false.
+Proof. exact TraceqlKeyProofs.analyze_refuted_with_cut_key. Qed.
+Print Assumptions analyze_refuted_with_cut_key.
+
+(* 12g / 13g / 20g. traceql_correct for one selector, one selector with an aggregate filter, and chains, with terms_grammar in the
+   place of keys_ok (chain_ok_g = chain_ok with that replacement).  Example grammar_hyps: the witnesses of single_hyps / agg_hyps /
+   chain_hyps meet the new guard. *)
+Theorem traceql_correct_single_grammar : forall re_match parse_float hash64 (c : ctx) (d : db),
+  rf_max c = 0%Z -> db_consistent c d -> spans_capped c d ->
+  forall e : attr_exp,
+  terms_grammar e = true ->
+  forallb term_lit_ok (fst (snd (analyze_cond e ([], [])))) = true ->
+  (List.length (fst (snd (analyze_cond e ([], [])))) <= 64)%nat ->
+  (cond_depth (fst (analyze_cond e ([], []))) <= 28)%nat ->
+  lits_exact e = true ->
+  forall (ao : andor) (n : nat) (s : select),
+  plan (q1 e ao) MSearch c n = Ok s ->
+  exists res, index_rows_g re_match parse_float hash64 c d s = Some res
+              /\ result_ok c (traceql_sem re_match parse_float false c d (q1 e ao)) res = true.
+Proof. exact TraceqlKeyCorrect.traceql_correct_single_grammar. Qed.
+Print Assumptions traceql_correct_single_grammar.
+
+Theorem traceql_correct_agg_grammar : forall re_match parse_float hash64 (c : ctx) (d : db),
+  rf_max c = 0%Z -> db_consistent c d -> spans_capped c d ->
+  forall e : attr_exp,
+  terms_grammar e = true ->
+  forallb term_lit_ok (fst (snd (analyze_cond e ([], [])))) = true ->
+  (List.length (fst (snd (analyze_cond e ([], [])))) <= 64)%nat ->
+  (cond_depth (fst (analyze_cond e ([], []))) <= 28)%nat ->
+  lits_exact e = true ->
+  forall ag : aggregator, agg_guard ag = true -> agg_lit_exact ag = true ->
+  forall (ao : andor) (n : nat) (s : select),
+  plan (q2 e ag ao) MSearch c n = Ok s ->
+  exists res, index_rows_g re_match parse_float hash64 c d s = Some res
+              /\ result_ok c (traceql_sem re_match parse_float false c d (q2 e ag ao)) res = true.
+Proof. exact TraceqlKeyCorrect.traceql_correct_agg_grammar. Qed.
+Print Assumptions traceql_correct_agg_grammar.
+
+Theorem traceql_correct_chain_grammar : forall re_match parse_float hash64 (c : ctx) (d : db),
+  rf_max c = 0%Z -> db_consistent c d -> spans_capped c d ->
+  forall (q : script) (n : nat) (s : select),
+  chain_ok_g q -> sc_tail q <> None ->
+  plan q MSearch c n = Ok s ->
+  (chain_need q <= 13)%nat ->
+  exists res, index_rows_g re_match parse_float hash64 c d s = Some res
+              /\ result_ok c (traceql_sem re_match parse_float false c d q) res = true.
+Proof. exact TraceqlKeyCorrect.traceql_correct_chain_grammar. Qed.
+Print Assumptions traceql_correct_chain_grammar.
